@@ -6,6 +6,7 @@ import (
 	"errors"
 	"flag"
 	"fmt"
+	"math"
 	"math/rand"
 	"os"
 	"regexp"
@@ -108,7 +109,13 @@ func init() {
 	_ = flag.CommandLine
 }
 
-var rxSet = []string{".*", "^b", "c$", "^$", "["}
+// index 4 is the invalid expression; the matchers of the others are Nuts.Driver.DBSuite.rxMatch
+var rxSet = []string{".*", "^b", "c$", "^$", "[", "^b$", "^ab$", "b", "ab", "^a.*c$"}
+
+// oddLimit: limits other than a positive count and ScanNoLimit (-1)
+func oddLimit(r *rand.Rand) int {
+	return []int{-2, -3, 0, math.MinInt64, math.MinInt64 + 1, -1 << 31}[r.Intn(6)]
+}
 
 var errInjected = errors.New("injected write error")
 
@@ -1151,6 +1158,9 @@ func (s *dbSuite) genOp(r *rand.Rand, dead bool) string {
 			case 3:
 				lim = n + 5 + r.Intn(20) // more than the bucket can hold
 			}
+			if r.Intn(25) == 0 {
+				lim = oddLimit(r)
+			}
 			// offsets: mostly inside the block (the number of distinct live keys is far below the number of draws)
 			off := r.Intn(n + 2)
 			switch r.Intn(4) {
@@ -1171,6 +1181,9 @@ func (s *dbSuite) genOp(r *rand.Rand, dead bool) string {
 				lim = -1
 			case 2:
 				lim = len(s.usedKeys[b]) + 5 + r.Intn(20) // more than the bucket can hold
+			}
+			if r.Intn(25) == 0 {
+				lim = oddLimit(r)
 			}
 			return fmt.Sprintf("psearch %s %s %d %d %d %d", hb, hx(pre), r.Intn(len(rxSet)), 0, lim, now)
 		}
@@ -1456,11 +1469,17 @@ func (s *dbSuite) genBigOp(r *rand.Rand) string {
 		case 2:
 			lim = n + 5 + r.Intn(50) // more than the bucket can hold
 		}
+		if r.Intn(25) == 0 {
+			lim = oddLimit(r)
+		}
 		return fmt.Sprintf("prefix %s %s %d %d %d", hb, hx(pre), off, lim, now)
 	case 5:
 		lim := r.Intn(8) + 1
 		if r.Intn(3) == 0 {
 			lim = -1
+		}
+		if r.Intn(25) == 0 {
+			lim = oddLimit(r)
 		}
 		return fmt.Sprintf("psearch %s %s %d %d %d %d", hb, hx(pre), r.Intn(len(rxSet)), 0, lim, now)
 	case 6, 7:
